@@ -1,6 +1,7 @@
 import Rare.Model.C19
 import Rare.Base.F64Str
 import Rare.Model.C11Log
+import Rare.Model.C19Trig
 /-!
 IEEE-754 binary64 instance of the C19 arithmetic, over the kernel-checkable software model
 `Rare.F64` (bit patterns, exact rationals, one rounding; `Rare/Base/F64.lean`).  This is the
@@ -31,9 +32,14 @@ Mirrors `pkg/expressions/stdmath/ops.go` operator by operator:
                              pure Go on top of it.  `Props/C19.lean` `log_platform` ties GOARCH and probe
                              values computed by the toolchain to these definitions.
 
-What stays a **parameter** (`Libm`): the functions whose instruction sequence is not fixed by the
-source (`sin cos tan asin acos atan exp exp2`; `math.Exp` on amd64 depends on the CPU's FMA support) and
-`math.Pow` with a fractional exponent (`Exp(yf·Log(x))`).  `prim L` is the arithmetic for a given behaviour `L` of those; every theorem
+* `sin cos tan asin acos atan` → `Rare.C19.Trig.sin …` (round 4c, `Model/C19Trig.lean`): pure Go on amd64 (Cephes
+                             polynomials, Cody-Waite reduction below 2^29, Payne-Hanek above), mirrored operation
+                             by operation; `exp2` → `exp2` below (pure Go: reduction, `expmulti`, `Ldexp`).
+                             `Props/C19.lean` `trig_platform` ties probe values computed by the toolchain.
+
+What stays a **parameter** (`Libm`): `exp` (`math.Exp` on amd64 is an assembly routine whose instruction sequence
+depends on the CPU's FMA support, so it is not a function of the source) and `math.Pow` with a fractional exponent
+(`Exp(yf·Log(x))`, the same routine).  `prim L` is the arithmetic for a given behaviour `L` of those; every theorem
 holds for all `L`.  `primT` is the same arithmetic over `Option F64` where `none` = "went through
 `Libm`" (tainted); `Proofs/C19F64.lean` proves that an untainted answer of `primT` is the answer of
 `prim L` for every `L` (`taint_sound`), which is why the driver may evaluate with `primT`.
@@ -162,9 +168,48 @@ def powCore (x y : F64) : Option F64 :=
     else if !F64.eq yf zeroP then none
     else some (powInt x (toInt64 yi) (lt y zeroP))
 
+/-! ### `math.Exp2` (exp.go: `exp2`, `expmulti`; `haveArchExp2` is false on amd64) -/
+
+def ln2Hi : F64 := ofSM false 0x3fe62e42fee00000
+def ln2Lo : F64 := ofSM false 0x3dea39ef35793c76
+def two : F64 := ofSM false 0x4000000000000000
+/-- `Overflow = 1.0239999999999999e+03`, `Underflow = -1.0740e+03` of `exp2` -/
+def exp2Overflow : F64 := ofSM false 0x408fffffffffffff
+def exp2Underflow : F64 := ofSM true 0x4090c80000000000
+def expP1 : F64 := ofSM false 0x3fc5555555555555
+def expP2 : F64 := ofSM true 0x3f66c16c16bebd93
+def expP3 : F64 := ofSM false 0x3f11566aaf25de2c
+def expP4 : F64 := ofSM true 0x3ebbbd41c5d26bf1
+def expP5 : F64 := ofSM false 0x3e66376972bea4d0
+
+/-- The `y` of `expmulti(hi, lo, k)`: `e^r` with `r = hi - lo`. -/
+def expY (hi lo : F64) : F64 :=
+  let r := sub hi lo
+  let t := mul r r
+  -- c := r - t*(P1+t*(P2+t*(P3+t*(P4+t*P5))))
+  let c := sub r (mul t (add expP1 (mul t (add expP2 (mul t (add expP3 (mul t (add expP4 (mul t expP5)))))))))
+  -- y := 1 - ((lo - (r*c)/(2-c)) - hi)
+  sub one (sub (sub lo (div (mul r c) (sub two c))) hi)
+
+/-- `expmulti(hi, lo, k)`: `Ldexp(y, k)`. -/
+def expmulti (hi lo : F64) (k : Int) : F64 := ldexp (expY hi lo) k
+
+/-- `math.Exp2` -/
+def exp2 (x : F64) : F64 :=
+  if x.isNaN || (x.isInf && !x.sign) then x
+  else if x.isInf then zeroP
+  else if lt exp2Overflow x then inf false
+  else if lt x exp2Underflow then zeroP
+  else
+    -- k = int(x + 0.5) / int(x - 0.5): truncation; |x| ≤ 1074 here
+    let k : Int := if lt zeroP x then toInt64 (add x half) else if lt x zeroP then toInt64 (sub x half) else 0
+    let t := sub x (ofInt k)
+    expmulti (mul t ln2Hi) (mul (neg t) ln2Lo) k
+
 /-! ### unary functions -/
 
-/-- The functions of `uniOps` the model computes: those IEEE-754 determines, and (round 4b) the three
+/-- The functions of `uniOps` the model computes: those IEEE-754 determines, (round 4c) the six trigonometric
+    functions and `exp2` (pure Go on amd64, mirrored in `Model/C19Trig.lean` / above), and (round 4b) the three
     logarithms, which on the platform of the check are fixed sequences of binary64 operations
     (`math.Log` = `log_amd64.s`, mirrored instruction by instruction in `Model/C11Log.lean` – the model of
     property C11's `{ln}`/`{log10}`/`{log2}`, shared here; `math.Log10`, `math.Log2` pure Go on top of it). -/
@@ -177,6 +222,13 @@ def exactFn (name : Bytes) : Option (F64 → F64) :=
   else if name = [108, 111, 103] then some Rare.C11.Log.logAsm       -- log
   else if name = [108, 111, 103, 49, 48] then some Rare.C11.Log.log10   -- log10
   else if name = [108, 111, 103, 50] then some Rare.C11.Log.log2     -- log2
+  else if name = [115, 105, 110] then some Rare.C19.Trig.sin         -- sin
+  else if name = [99, 111, 115] then some Rare.C19.Trig.cos          -- cos
+  else if name = [116, 97, 110] then some Rare.C19.Trig.tan          -- tan
+  else if name = [97, 115, 105, 110] then some Rare.C19.Trig.asin    -- asin
+  else if name = [97, 99, 111, 115] then some Rare.C19.Trig.acos     -- acos
+  else if name = [97, 116, 97, 110] then some Rare.C19.Trig.atan     -- atan
+  else if name = [101, 120, 112, 50] then some exp2                  -- exp2
   else none
 
 /-- `strconv.ParseFloat(s, 64)` on a literal token. -/
